@@ -129,3 +129,21 @@ def install(it, ex, trace, existing=None, parent_exists=True, faults=None):
     it.models[fs.fsFile.change_attributes] = change_attributes
     it.models[fs.fsSymlink.change_attributes] = change_attributes
     it.models[fs.fsDev.change_attributes] = change_attributes
+    # everything else that touches or inspects the real file system is *not* part of the ghost operating system: running it
+    # natively would answer from the host's files.  A function under contract that starts using one of these leaves the subset
+    # (undecided), it is never silently executed.
+    import shutil
+    from pyvc.sym import OutOfSubset
+
+    def deny(name):
+        def f(it_, *a, **k):
+            raise OutOfSubset(f"{name} is not modelled by the ghost operating system of this contract")
+        return f
+    for modname, mod, names in (("os", os, ("lstat", "stat", "unlink", "remove", "rmdir", "listdir", "scandir", "readlink", "open", "replace", "truncate", "access", "chown",
+                                            "mkdir", "makedirs", "removedirs", "renames", "walk", "link", "symlink", "mkfifo", "mknod", "utime", "chmod", "lchown", "rename", "fchmod", "fchown")),
+                                ("os.path", os.path, ("exists", "lexists", "isfile", "isdir", "islink", "getsize", "getmtime", "realpath", "samefile", "ismount")),
+                                ("shutil", shutil, ("rmtree", "copyfile", "copy", "copy2", "move", "copytree"))):
+        for n in names:
+            fn = getattr(mod, n, None)
+            if fn is not None and fn not in it.models:
+                it.models[fn] = deny(f"{modname}.{n}")
